@@ -9,6 +9,7 @@ mod c16;
 mod c17;
 mod c18;
 mod c19;
+mod c20;
 mod hooks;
 mod c08;
 mod c09;
@@ -32,7 +33,7 @@ fn exec_line(ctx: &mut Ctx, line: &str) -> String {
     let prop = toks.next().unwrap_or("");
     let second = toks.next().unwrap_or("");
     match prop {
-        "c01" | "c02" | "c04" | "c06" | "c15" | "c16" | "c17" => {
+        "c01" | "c02" | "c04" | "c06" | "c15" | "c16" | "c17" | "c20" => {
             let (v, m) = parse_line(line);
             if second == "cfg" {
                 ctx.arr = None;
@@ -50,6 +51,7 @@ fn exec_line(ctx: &mut Ctx, line: &str) -> String {
                         else if prop == "c17" { c17::exec_op(c, &mut ctx.c06, &verb, &m, &dtype) }
                         else if prop == "c15" { c15::exec_op(c, &verb, &m) }
                         else if prop == "c02" { c02::exec_op(c, &verb, &m) }
+                        else if prop == "c20" { c20::exec_op(c, &verb, &m, line) }
                         else if prop == "c16" { c16::exec_op(c, &mut ctx.c06, &mut ctx.c16, &verb, &m, line, &dtype) }
                         else { arr::exec_op(c, &verb, &m) },
                     None => "skip".into(),
@@ -107,6 +109,7 @@ fn main() {
                 "c16" => c16::generate(&a.tier, a.seed),
                 "c17" => c17::generate(&a.tier, a.seed),
                 "c19" => c19::generate(&a.tier, a.seed),
+                "c20" => c20::generate(&a.tier, a.seed),
                 "c08" => c08::generate(&a.tier, a.seed),
                 "c09" => c09::generate(&a.tier, a.seed),
                 "c10" => c10::generate(&a.tier, a.seed),
